@@ -430,6 +430,8 @@ package ion
 //@ ensures[C03,C08] err == nil ==> b.pos == old(b.pos)+length && bsS(b).cur == old(bsS(b).cur)+int(length) && result != nil && result.n != nil
 //@ ensures[C01,C03] err == nil && length > 0 ==> int64(-result.scale) == specVarIntValue(bsS(b).data, old(bsS(b).cur), specVarUintEnd(old(bsS(b))))
 //@ ensures[C01,C03] err == nil && length == 0 ==> result.scale == 0 && !result.isNegZero && result.n.Sign() == 0
+//@ ensures[C03,C13] length > 0 && length < 1<<62 && uint64(old(bsAvail(b))) >= length && specVarUintEnd(old(bsS(b))) != 0 && specVarUintEnd(old(bsS(b))) <= length &&
+//@    specVarIntValue(bsS(b).data, old(bsS(b).cur), specVarUintEnd(old(bsS(b)))) <= math.MaxInt32 && specVarIntValue(bsS(b).data, old(bsS(b).cur), specVarUintEnd(old(bsS(b)))) >= math.MinInt32 ==> err == nil
 //@ ensures[C01,C03] err == nil && length > 0 && length == specVarUintEnd(old(bsS(b))) ==> !result.isNegZero && result.n.Sign() == 0
 //@ ensures[C01,C03] err == nil && length > 0 && length > specVarUintEnd(old(bsS(b))) ==>
 //@    result.isNegZero == (old(bsByte(b, int(specVarUintEnd(bsS(b)))))&0x80 != 0 && result.n.Sign() == 0)
